@@ -106,7 +106,7 @@ func emptyMapTypeDiff(a, b cty.Value) bool {
 		a.LengthInt() == 0 && b.LengthInt() == 0 {
 		return true
 	}
-	if !a.IsKnown() || !b.IsKnown() || a.IsNull() || b.IsNull() || !a.CanIterateElements() || !b.CanIterateElements() || at.IsSetType() || bt.IsSetType() {
+	if !a.IsKnown() || !b.IsKnown() || a.IsNull() || b.IsNull() || !a.CanIterateElements() || !b.CanIterateElements() {
 		return false
 	}
 	if a.LengthInt() != b.LengthInt() {
@@ -116,7 +116,7 @@ func emptyMapTypeDiff(a, b cty.Value) bool {
 	for ai.Next() && bi.Next() {
 		ak, av := ai.Element()
 		bk, bv := bi.Element()
-		if !ak.RawEquals(bk) {
+		if !ak.RawEquals(bk) && !at.IsSetType() {
 			return false
 		}
 		if !av.RawEquals(bv) {
@@ -261,6 +261,9 @@ func run(cfg *hv.RunCfg) error {
 				}()
 				if which == "block-type-label-conflict" {
 					body = &pbody{Blocks: []*pblock{{Type: "b1", Body: &pbody{}}}}
+				}
+				if which == "refine-unguarded" && g.r.Chance(0.7) {
+					body = &pbody{}
 				}
 				jobs = append(jobs, job{in: input{Spec: s, Body: body.text()}, pert: "precondition:" + which, violate: true})
 				continue
